@@ -356,6 +356,12 @@ pub struct SimKnobs {
     /// per host (offset us, rate permille)
     pub clocks: Vec<(u64, u32)>,
     pub max_steps: u64,
+    /// PCT-style scheduling: number of priority-change points (0 = weighted random walk) and the
+    /// span of steps they are drawn from
+    #[serde(default)]
+    pub pct_depth: u32,
+    #[serde(default)]
+    pub pct_span: u32,
 }
 
 #[derive(Clone, Debug, Serialize, Deserialize, PartialEq, Eq)]
